@@ -572,7 +572,7 @@ def all_cases(which):
             if dim == 3:
                 cs.append((f"group_{kind}_3d_general", mk_group(kind, 3, affine=False), dict(tiers=Tt)))
         for kind in ("point", "hyper", "segment", "triangle", "polygon4"):
-            cs.append((f"image_nonzero_{kind}_{dim}d", mk_image_nonzero(kind, dim, affine=(dim == 3 and kind not in ("point", "hyper"))), dict(tiers=Q if (dim == 2 or kind == "segment") else ("attempt",))))
+            cs.append((f"image_nonzero_{kind}_{dim}d", mk_image_nonzero(kind, dim, affine=(dim == 3 and kind not in ("point", "hyper"))), dict(tiers=Q if ((dim == 2 and kind != "hyper") or kind == "segment") else ("attempt",))))   # hyper_2d: decided, but only by the last solver tier in ~30 s (fragile) -> not claimed
         cs.append((f"int_matrix_{dim}d", mk_int_matrix(dim), dict(tiers=Q)))
         cs.append((f"inverse_big_collection_{dim}d", mk_inverse_big_collection(dim), dict(tiers=Q)))
         if dim == 2:
